@@ -39,13 +39,6 @@ func (m *Machine) sumOfSeq(kind string, w int, seq []*Term) *Term {
 			break
 		}
 	}
-	if allConst {
-		bs := make([]byte, len(seq))
-		for i, t := range seq {
-			bs[i] = byte(t.Val)
-		}
-		return BV(w, realSum(kind, bs))
-	}
 	k := seqKey(kind, seq)
 	for _, s := range m.crcs {
 		if s.key == k {
@@ -72,6 +65,14 @@ func (m *Machine) sumOfSeq(kind string, w int, seq []*Term) *Term {
 	}
 	m.crcs = append(m.crcs, ns)
 	m.stubsUsed["ideal-"+kind]++
+	if allConst {
+		// a fully concrete sequence has its real checksum
+		bs := make([]byte, len(seq))
+		for i, t := range seq {
+			bs[i] = byte(t.Val)
+		}
+		m.assume(Cmp("=", v, BV(w, realSum(kind, bs))))
+	}
 	return v
 }
 
